@@ -49,3 +49,11 @@ package tsclientgen
 //@   at-call generateURLBuilding requires own_config: arg1 != nil && arg1.httpMethod == old(spec.verbOf(method)) && arg1.fullPath == old(spec.clientPath(service, method)) && arg1.pathParams == old(spec.pathVars(method)) && arg1.queryParams == old(annotations.GetQueryParams(method.Input))
 //@   at-call generateFetchCall requires own_config: arg1 != nil && arg1.httpMethod == old(spec.verbOf(method)) && (arg1.hasBody <==> spec.isBodyVerb(old(spec.verbOf(method))))
 //@   ensures url_and_fetch_once: count("generateURLBuilding") == old(count("generateURLBuilding")) + 1 && count("generateFetchCall") == old(count("generateFetchCall")) + 1
+
+// every RPC of the service gets its client method, in declaration order
+//@ func (g *Generator) generateClientClass(p printer, service *protogen.Service)
+//@   requires service != nil
+//@   modifies *
+//@   at-call generateRPCMethod requires each_rpc_in_order: arg1 == service && arg2 == service.Methods[count("generateRPCMethod") - old(count("generateRPCMethod"))]
+//@   loop 1 invariant count("generateRPCMethod") == old(count("generateRPCMethod")) + _i1
+//@   ensures every_rpc_has_a_method: count("generateRPCMethod") == old(count("generateRPCMethod")) + len(service.Methods)
